@@ -7,7 +7,6 @@ from vlib import render as RR
 
 ID = "C08"
 PROP_FILE = "Props/C08.v"
-THEOREMS = ["C08_count_iter", "C08_names_length", "C08_array_length", "C08_no_disabled_positions", "C08_nonvacuous"]
 RULE = ("field-less enums (deriving all four: EnumCount, VariantNames, VariantArray, EnumIter) and mixed enums (the three that "
         "accept payloads), 0-12 variants, explicit discriminants, naming attributes (serialize / to_string / serialize_all / "
         "prefix), every placement of disabled variants for up to 5 variants, generics. Observed: COUNT, iter().count(), VARIANTS "
